@@ -43,7 +43,7 @@ import (
 
 var Driver = core.Driver{ID: "C05", Level: "exploration", Run: run, Replay: replay, SelfTest: selfTest}
 
-var walkers = []string{"resolve", "length", "xref", "pages", "outline", "nametree", "filters", "decode", "fields", "parents", "objwalk"}
+var walkers = []string{"resolve", "length", "xref", "pages", "outline", "nametree", "filters", "decode", "fields", "parents", "objwalk", "navnode"}
 
 // holdConfigs are the design models that must hold: Termination (liveness)
 // and the safety invariants for every walker at N = 2 (one run: the walker is
@@ -545,6 +545,14 @@ func addExploration(ctx *core.Ctx, pl *plan) error {
 					pl.add(&Req{Family: f}, "family:"+name, f.key(), nil)
 				}
 			}
+		}
+	}
+	// rho shapes for every list-shaped walker: a tail of 0..3 nodes that runs
+	// into a loop of 1..3 nodes (the loop need not pass through the head)
+	for _, name := range RhoFamilies() {
+		for _, xs := range []bool{false, true} {
+			f := &Family{Name: name, Size: 1, XS: xs}
+			pl.add(&Req{Family: f}, "family:"+name[:strings.LastIndex(name, ":")], f.key(), nil)
 		}
 	}
 	for _, name := range FamilyNames {
